@@ -215,6 +215,9 @@ func (t *QuicTransport) runDialingCall(call *dialingQuicCall) {
 		if c != nil {
 			c.CloseWithError(quic.ApplicationErrorCode(_DOQ_NO_ERROR), "")
 		}
+		// Wake up the callers that are waiting for this dial.
+		call.err = ErrClosedTransport
+		close(call.done)
 		return
 	}
 	t.c = c
